@@ -17,10 +17,10 @@ ASSUMPTIONS = ['inside the documented strictness band |x_i - f| <= 4*tolerance(f
                'right-hand sides do not contain the isolated variable; several relations have left-hand variables that do not feed one another',
                'numpy elementary functions are the maths library of the oracle too (the generated code imports them)']
 CLASSES = {
-    'single': {'quick': 5000, 'thorough': 120000},
-    'multi': {'quick': 1500, 'thorough': 30000},
-    'bounds': {'quick': 700, 'thorough': 15000},
-    'named_collision': {'quick': 60, 'thorough': 600},
+    'single': {'quick': 5000, 'thorough': 240000},
+    'multi': {'quick': 1500, 'thorough': 60000},
+    'bounds': {'quick': 700, 'thorough': 30000},
+    'named_collision': {'quick': 60, 'thorough': 1200},
 }
 MIN_EVENTS = {'quick': {'assert:rel': 5000, 'assert:frame': 5000, 'assert:bounds': 900}}
 CASE_TIMEOUT = 120
